@@ -1,7 +1,7 @@
 (* C17 -- Computed paths follow the exact curves within tolerance.
-   Statements only ([exact] of lemmas from Proofs/PathFacts).
+   Statements only ([exact] of lemmas from Proofs).
 
-   Proved (T17a; every input, IEEE arithmetic, any libm): linear segments copy
+   Proved, IEEE arithmetic, every input, any libm (T17a): linear segments copy
    their vertices; a Bezier / B-spline segment starts with its first control
    point and ends with its last (pure routine and the code-level routine with
    arbitrary scratch buffers); perfect curves that are not three points, are
@@ -11,16 +11,44 @@
    produced identically by two consecutive segments is removed (rotate_left +
    pop = deletion of that one vertex), and only then.
 
-   NOT proved (T17b-e of DESIGN; the property is PARTIAL):
-     (T17b de Casteljau subdivision, T17c the Catmull-Rom polynomial identity
-     and T17d the circum-centre and arc points under libm hypotheses ARE proved
-     below, over the reals, on definitions shared with the model)
-     - the Hausdorff bound between path and exact curve (flatness 0.25, arc
-       sagitta 0.1, 50 Catmull steps, 6 px osu! simplification).
-   The bound is measured by the oracle of harness/src/c17.rs against curves
-   evaluated exactly in f64 (de Casteljau, circumcircle, Catmull polynomial). *)
+   Proved, EXACT (real) arithmetic, on definitions shared with the model --
+   each routine is written once over abstract operations, the model is the
+   IEEE instance (by reflexivity / a structural lemma, C17_model_...), the
+   theorems speak about the instance over the reals:
+     T17b de Casteljau subdivision; T17c the Catmull-Rom polynomial identity;
+     T17d circum-centre and arc points;
+     T17e the two-sided Hausdorff bounds between the computed polyline and the
+     exact curve:
+       arc      4 * CIRCULAR_ARC_TOLERANCE = 0.4 (C17_arc_hausdorff).  NOT 0.1:
+                the source takes ceil(range / (2 acos(1 - tol/r))) VERTICES, one
+                chord less than the tolerance asks for, so the angle per chord
+                can be twice the tolerated one and the sagitta 4 tol - 2 tol^2/r
+                (C17_arc_tolerance_0_1_refuted: 0.38 at r = 1; same in lazer);
+       Bezier   n (2n - 1) / 8 * (2 * BEZIER_TOLERANCE), n = degree, for the whole
+                subdivision loop (C17_bezier_hausdorff); convex-hull property
+                (C17_bezier_convex_hull);
+       Catmull  vertices ON the Catmull-Rom curve, chords within
+                (1/8) (1/50)^2 max(|P''(0)|, |P''(1)|) <= 3 L / 10000, L = longest
+                edge of the control polygon (C17_catmull_span_hausdorff,
+                C17_catmull_hausdorff); osu!-mode simplification: kept and full
+                polyline within 6 px of each other (C17_catmull_simplification_hausdorff);
+       linear   distance 0 (C17_linear_exact).
+
+   NOT proved (the property stays PARTIAL for this reason only):
+     - the IEEE rounding error of the binary32 / binary64 evaluation (the
+       computed vertices vs. the vertices of the real instance), and libm's
+       error in sin / cos / acosf / atan2.  It is MEASURED by the oracle of
+       harness/src/c17.rs against curves evaluated in f64, with the exact
+       bounds above plus an explicit rounding slack;
+     - that the second control point of a perfect curve lies on the arc that
+       is run through (the direction choice), and the angle of the last
+       vertex: T17d has the end points under libm hypotheses only;
+     - D19 (radius >~ 1e6): the "(int)Infinity" branch; excluded from
+       C17_arc_hausdorff by hypothesis. *)
 From RM Require Import Model.ControlPoints Model.Curve Gen.Generated Proofs.BezierRefine Proofs.PathFacts
-  Proofs.CatmullFacts Proofs.ArcExact Proofs.DeCasteljau.
+  Proofs.CatmullFacts Proofs.ArcExact Proofs.DeCasteljau Proofs.BezierTermination Proofs.SimplifyExact
+  Proofs.HausdorffPlane Proofs.HausdorffArc Proofs.HausdorffBezierCore Proofs.HausdorffBezier
+  Proofs.HausdorffCatmull Proofs.HausdorffCatmullDeriv Proofs.HausdorffSimplify.
 From Coq Require Import Reals.
 Open Scope Z_scope.
 
@@ -248,3 +276,257 @@ Example C17_nonvacuous :
   end
   = (dump_pos (mkPos (S.of_Z 0) (S.of_Z 0)), dump_pos (mkPos (S.of_Z 20) (S.of_Z 15)), true, 1%nat).
 Proof. vm_compute. reflexivity. Qed.
+
+(* ================================================================== *)
+(* T17e [exact arithmetic]: the Hausdorff bounds                       *)
+(* ================================================================== *)
+
+(* the tolerances as real numbers *)
+Example pin_arc_tol_R : arc_tol_R = (1 / 10)%R.
+Proof. exact arc_tol_value. Qed.
+Example pin_bez_tol_R : bez_tol_R = (1 / 4)%R /\ (bez_tol_R * bez_tol_R * 4 = 1 / 4)%R.
+Proof. split; [exact bez_tol_value|exact bez_limit_value]. Qed.
+Example pin_detail_R : detail_R = 50%R.
+Proof. exact detail_value. Qed.
+Example pin_simplify_dist_R : simplify_dist_R = 6%R.
+Proof. exact simplify_dist_value. Qed.
+
+(* ---------- circular arc ---------- *)
+
+(* the sub-point count and the emitted arc of the model are the binary32 /
+   binary64 instance of arc_sub_points_g / arc_path_g *)
+Theorem C17_model_arc_sub_points_is_generic :
+  forall lm pr,
+  arc_sub_points lm pr =
+  arc_sub_points_g S.le S.mul S.sub S.div S.abs (l_acosf lm) s2 S.one circular_arc_tolerance S.eps
+                   f64_of_f32 D.div (fun x => f64_as_usize (D.ceil x)) (a_radius pr) (a_theta_range pr).
+Proof. exact model_arc_sub_points. Qed.
+Print Assumptions C17_model_arc_sub_points_is_generic.
+
+Theorem C17_model_arc_path_is_generic :
+  forall lm a b c pr,
+  circular_arc_properties lm a b c = Done (Some pr) ->
+  (arc_subpoint_cap <=? arc_sub_points lm pr) = false ->
+  approximate_circular_arc lm a b c =
+  Done (Some (map pos_of
+    (arc_path_g (fun k => D.of_Z (Z.of_nat k)) D.add D.mul D.div (l_cos lm) (l_sin lm) f32_of_f64 S.add S.mul D.of_Z
+                (px (a_centre pr)) (py (a_centre pr)) (a_radius pr) (a_theta_start pr)
+                (a_direction pr) (a_theta_range pr) (arc_sub_points lm pr)))).
+Proof. exact model_arc_path. Qed.
+Print Assumptions C17_model_arc_path_is_generic.
+
+(* real instance (cos, sin, acos of Coq's Reals): centre (X, Y), radius r,
+   start angle ts, direction dir = +-1, range in [0, 2 PI]; eps stands for
+   f32::EPSILON.  Hypotheses: the arc is emitted (count below the cap) and the
+   "(int)Infinity" branch is not the one taken (D19).  Conclusion: n >= 2
+   vertices, all ON the arc; every point of every chord within 4 tol of the
+   arc; every point of the arc within 4 tol of a chord *)
+Theorem C17_arc_hausdorff :
+  forall X Y r ts dir range eps : R,
+  (0 < r)%R -> (0 <= range <= 2 * PI)%R -> (dir = 1 \/ dir = -1)%R -> (0 <= eps)%R ->
+  let n := arc_sub_points_R eps r range in
+  let path := arc_path_R X Y r ts dir range n in
+  let arc := arc_at X Y r ts dir range in
+  n < arc_subpoint_cap ->
+  ((arc_tol_R < 2 * r)%R -> (eps < 2 * acos (1 - arc_tol_R / r))%R) ->
+  length path = Z.to_nat n /\ 2 <= n /\
+  (forall i, (i < Z.to_nat n)%nat -> exists f, (0 <= f <= 1)%R /\ nth i path (0, 0)%R = arc f) /\
+  (forall i s, (S i < Z.to_nat n)%nat -> (0 <= s <= 1)%R ->
+     exists f, (0 <= f <= 1)%R /\
+       (dist2 (lerp2 (nth i path (0, 0)%R) (nth (S i) path (0, 0)%R) s) (arc f) <= 4 * arc_tol_R)%R) /\
+  (forall f, (0 <= f <= 1)%R ->
+     exists i s, (S i < Z.to_nat n)%nat /\ (0 <= s <= 1)%R /\
+       (dist2 (arc f) (lerp2 (nth i path (0, 0)%R) (nth (S i) path (0, 0)%R) s) <= 4 * arc_tol_R)%R).
+Proof. exact arc_hausdorff. Qed.
+Print Assumptions C17_arc_hausdorff.
+
+(* the arc, and the sagitta that the comment in the source intends *)
+Theorem C17_arc_points_have_radius_r :
+  forall X Y r th : R, sqd2 (cpt X Y r th) (X, Y) = (r ^ 2)%R.
+Proof. exact cpt_on_circle. Qed.
+Print Assumptions C17_arc_points_have_radius_r.
+
+Theorem C17_arc_intended_sagitta :
+  forall r h : R, (0 < r)%R -> (arc_tol_R < 2 * r)%R -> (0 <= h <= acos (1 - arc_tol_R / r))%R ->
+  (0 <= r * (1 - cos h) <= arc_tol_R)%R.
+Proof. exact sagitta_intended. Qed.
+Print Assumptions C17_arc_intended_sagitta.
+
+(* ... which the vertex count does not deliver: radius 1, range = twice the
+   tolerated angle, 2 vertices, the middle of the chord is 0.38 > 0.1 from
+   EVERY point of the circle (and all hypotheses of C17_arc_hausdorff hold:
+   this is also its non-vacuity example) *)
+Theorem C17_arc_tolerance_0_1_refuted :
+  let range := (4 * acos (9 / 10))%R in
+  let n := arc_sub_points_R 0 1 range in
+  let path := arc_path_R 0 0 1 0 1 range n in
+  n = 2 /\ (0 <= range <= 2 * PI)%R /\ n < arc_subpoint_cap /\
+  (0 < 2 * acos (1 - arc_tol_R / 1))%R /\
+  forall th : R,
+    (38 / 100 <= dist2 (lerp2 (nth 0 path (0, 0)%R) (nth 1 path (0, 0)%R) (1 / 2)) (cpt 0 0 1 th))%R.
+Proof. exact arc_tolerance_not_met. Qed.
+Print Assumptions C17_arc_tolerance_0_1_refuted.
+
+(* ---------- Bezier / B-spline ---------- *)
+
+Theorem C17_model_bezier_is_generic :
+  forall fuel path points,
+  approximate_bezier_L1 fuel path points tt =
+  obind (approximate_bezier_g flat_enough sub32 bezier_approx_pts pos0 fuel path points) (fun p => Done (p, tt)).
+Proof. exact model_approximate_bezier. Qed.
+Print Assumptions C17_model_bezier_is_generic.
+
+Theorem C17_model_bezier_pieces_are_generic :
+  (forall points, bezier_approx_pts points = approx_pts_g avg2 tri pos0 points) /\
+  (forall a b c, tri a b c = tri_g padd pmul s2 s_quarter a b c) /\
+  (forall pts, flat_enough pts = flat_g far32 pts) /\
+  (forall m, sub32 m = subdiv_g avg2 pos0 (length m) m).
+Proof. repeat split; intros; reflexivity. Qed.
+Print Assumptions C17_model_bezier_pieces_are_generic.
+
+(* (a) convex hull: a strip |u . p - c| <= delta that contains the control
+   points contains the curve *)
+Theorem C17_bezier_convex_hull :
+  forall (P : list RP) n (ux uy c delta t : R),
+  length P = S n -> (0 <= t <= 1)%R ->
+  (forall p, In p P -> (Rabs (ux * fst p + uy * snd p - c) <= delta)%R) ->
+  (Rabs (ux * fst (Bez P t) + uy * snd (Bez P t) - c) <= delta)%R.
+Proof. exact bezier_convex_hull. Qed.
+Print Assumptions C17_bezier_convex_hull.
+
+(* (b) one flat piece (all second differences <= 2 tol in norm): its polyline
+   (emitted points, then the last control point), read at j / n, stays within
+   Kbez n = n (2n - 1) / 8 * 2 tol of the curve at the same parameter *)
+Theorem C17_bezier_flat_piece :
+  forall (P : list RP) n' j (s : R),
+  length P = S (S n') -> flat_R P = true -> (j < S n')%nat -> (0 <= s <= 1)%R ->
+  (dist2 (Bez P ((INR j + s) / INR (S n'))) (lerp2 (nth j (Epts P) zeroRR) (nth (S j) (Epts P) zeroRR) s)
+   <= Kbez (S n'))%R.
+Proof. exact piece_close_2D. Qed.
+Print Assumptions C17_bezier_flat_piece.
+
+Example pin_Kbez : forall n, Kbez n = (INR n * (2 * INR n - 1) / 8 * (2 * bez_tol_R))%R.
+Proof. reflexivity. Qed.
+
+(* the whole routine (subdivision loop, T17b inside): whenever it returns,
+   the emitted vertices, the emitted polyline and the exact curve Bez points
+   are within Kbez (degree) of each other *)
+Theorem C17_bezier_hausdorff :
+  forall (points : list RP) n' (path0 : list RP) fuel (path' : list RP),
+  length points = S (S n') ->
+  approximate_bezier_R fuel path0 points = Done path' ->
+  let K := Kbez (S n') in
+  let B := Bez points in
+  exists new, path' = path0 ++ new /\ (2 <= length new)%nat /\
+    (forall k, (k < length new)%nat ->
+       exists t, (0 <= t <= 1)%R /\ (dist2 (B t) (nth k new zeroRR) <= K)%R) /\
+    (forall k s, (S k < length new)%nat -> (0 <= s <= 1)%R ->
+       exists t, (0 <= t <= 1)%R /\ (dist2 (B t) (lerp2 (nth k new zeroRR) (nth (S k) new zeroRR) s) <= K)%R) /\
+    (forall t, (0 <= t <= 1)%R ->
+       exists k s, (S k < length new)%nat /\ (0 <= s <= 1)%R /\
+         (dist2 (B t) (lerp2 (nth k new zeroRR) (nth (S k) new zeroRR) s) <= K)%R).
+Proof. exact bezier_hausdorff. Qed.
+Print Assumptions C17_bezier_hausdorff.
+
+(* it does return, with the fuel of the model, for second differences up to 2^37 *)
+Theorem C17_bezier_returns :
+  forall (c : list RP) (M : R) path,
+  c <> [] -> B2 M (dd (map fst c)) (dd (map snd c)) -> (0 <= M)%R -> (M <= 4 ^ 19 / 2)%R ->
+  exists path', approximate_bezier_R bezier_fuel path c = Done path'.
+Proof. exact approximate_bezier_R_returns. Qed.
+Print Assumptions C17_bezier_returns.
+
+Example C17_bezier_hausdorff_nonvacuous :
+  exists path', approximate_bezier_R bezier_fuel [] [(0, 0); (1, 0); (0, 0)]%R = Done path'.
+Proof. exact bezier_hausdorff_nonvacuous. Qed.
+
+(* ---------- Catmull ---------- *)
+
+Theorem C17_model_catmull_is_generic :
+  forall points,
+  approximate_catmull points =
+  match approximate_catmull_g f32_ops S.div S.one catmull_detail_f of_nat32 phantom32 (map pair_of points) with
+  | Done l => Done (map pos_of2 l)
+  | Panic w => Panic w
+  | OutOfFuel => OutOfFuel
+  end.
+Proof. exact model_approximate_catmull. Qed.
+Print Assumptions C17_model_catmull_is_generic.
+
+(* one span: 100 vertices, all ON the Catmull-Rom curve crP; the chord k stays
+   within (1/8) (1/50)^2 S of the curve on [k/50, (k+1)/50], S bounding the
+   second derivative at both ends of the span ([span_follows]) *)
+Theorem C17_catmull_span_hausdorff :
+  forall (v1 v2 v3 v4 : RP2) (S : R), (0 <= S)%R -> second_le S v1 v2 v3 v4 ->
+  span_follows (S / 8 / 2500) v1 v2 v3 v4 (catmull_subpath_R v1 v2 v3 v4).
+Proof. exact catmull_span_hausdorff. Qed.
+Print Assumptions C17_catmull_span_hausdorff.
+
+Example pin_span_follows : forall bound v1 v2 v3 v4 path,
+  span_follows bound v1 v2 v3 v4 path <->
+  (length path = 100%nat /\
+   forall k, (k < 50)%nat ->
+     nth (2 * k) path (0, 0)%R = crP v1 v2 v3 v4 (INR k / 50) /\
+     nth (S (2 * k)) path (0, 0)%R = crP v1 v2 v3 v4 ((INR k + 1) / 50) /\
+     forall s, (0 <= s <= 1)%R ->
+       (dist2 (crP v1 v2 v3 v4 ((INR k + s) / 50))
+              (lerp2 (nth (2 * k) path (0, 0)%R) (nth (S (2 * k)) path (0, 0)%R) s) <= bound)%R).
+Proof. intros. reflexivity. Qed.
+
+(* cr2, whose values at 0 and 1 second_le bounds, is the second derivative *)
+Theorem C17_catmull_second_derivative :
+  forall v1 v2 v3 v4 t : R,
+  Coquelicot.Derive.is_derive_n (catmull_rom v1 v2 v3 v4) 2 t (cr2 v1 v2 v3 v4 t).
+Proof. exact cr2_second_derivative. Qed.
+Print Assumptions C17_catmull_second_derivative.
+
+(* every parameter of [0, 1] lies on one of the 50 chords *)
+Theorem C17_catmull_chords_cover_the_span :
+  forall t : R, (0 <= t <= 1)%R -> exists k s, (k < 50)%nat /\ (0 <= s <= 1)%R /\ t = ((INR k + s) / 50)%R.
+Proof. exact param_cover. Qed.
+Print Assumptions C17_catmull_chords_cover_the_span.
+
+(* the whole segment, as a function of the size of the control polygon: L =
+   longest edge; every span follows its curve within 3 L / 10000 *)
+Theorem C17_catmull_hausdorff :
+  forall (points cat : list RP2) (L : R),
+  approximate_catmull_R points = Done cat -> (0 <= L)%R -> edges_le L points ->
+  let spans := catmull_spans phantomR points in
+  cat = flat_map (span_path real_ops Rdiv 1%R detail_R INR) spans /\
+  Forall (fun sp : span (T := R) => let '(v1, v2, v3, v4) := sp in
+            span_follows (3 * L / 10000) v1 v2 v3 v4 (span_path real_ops Rdiv 1%R detail_R INR sp)) spans.
+Proof. exact catmull_hausdorff. Qed.
+Print Assumptions C17_catmull_hausdorff.
+
+Example C17_catmull_hausdorff_nonvacuous :
+  (exists cat, approximate_catmull_R [(0, 0); (10, 0)]%R = Done cat) /\ edges_le 10 [(0, 0); (10, 0)]%R.
+Proof.
+  split; [eexists; reflexivity|]. cbn [edges_le]. split; [|exact I].
+  unfold sqd2, sqd. cbn [fst snd]. apply Req_le. ring.
+Qed.
+
+(* osu! mode: the simplification loop (the model runs the same loop:
+   SimplifyExact.model_uses_same_loop) over the real plane, "far" = more than
+   6 px from the start of the group.  Both polylines within 6 px of each other
+   ([HD]: every point of either one has a point of the other within delta) *)
+Theorem C17_catmull_simplification_hausdorff :
+  forall sub_path : list (R * R), HD simplify_dist_R sub_path (catmull_simplify_R sub_path).
+Proof. exact catmull_simplify_hausdorff. Qed.
+Print Assumptions C17_catmull_simplification_hausdorff.
+
+Example pin_HD : forall delta orig kept,
+  HD delta orig kept <->
+  ((forall q, on_poly orig q -> exists q', on_poly kept q' /\ (dist2 q q' <= delta)%R) /\
+   (forall q', on_poly kept q' -> exists q, on_poly orig q /\ (dist2 q' q <= delta)%R)).
+Proof. intros. reflexivity. Qed.
+
+Example C17_simplification_nonvacuous :
+  catmull_simplify_R [(0, 0); (1, 0); (10, 0)]%R = [(0, 0); (10, 0)]%R.
+Proof. exact simplify_example. Qed.
+
+(* ---------- linear ---------- *)
+
+(* the path is the control polygon (C17_linear_copies_vertices, IEEE): distance 0 *)
+Theorem C17_linear_exact : forall l : list (R * R), HD 0 l l.
+Proof. intros l. apply HD_refl. apply Rle_refl. Qed.
+Print Assumptions C17_linear_exact.
